@@ -352,6 +352,35 @@ def run(ctx):
     for g in [F.fn(n) for n in sorted(upd_store)]:
         calls = [(b, t) for b, t in g.calls() if t.get("rpath") in upd_entry]
         ctx.check(len(calls) == 1, "R08.9", "%s|one-entry-update" % g.name, "the in-place update applies exactly one entry update", g.where())
+        # per path: a response that says "updated" reports, as the new expiry, what the entry update returned (R08.1: the
+        # entry's resulting expiry) - or, if the path changes nothing, the expiry the entry already had.  Otherwise the
+        # classification (R08.2) acts on a made-up pair and the expiry index drifts from the stored expiry.
+        badp = []
+        n_upd = 0
+        for p in ipaths(F, g, stop=lambda n: n in upd_entry or n in L.alive_fns, depth=2):
+            r = p.ret
+            if not (r[0] == "agg" and len(r[3]) >= 2):
+                badp.append("the response is not built in this function (%s)" % fmt(r)[:60])
+                continue
+            f0, f1 = r[3][0][1], r[3][1][1]
+            if p.variant_of(f0) != ("Some",):
+                continue
+            n_upd += 1
+            pair = p.payload_of(f0)
+            pair = inline_ctor(F, pair) if pair is not None else None
+            existing = pair[3][1][1] if pair is not None and pair[0] == "agg" and len(pair[3]) >= 2 else None
+            ups = p.calls(upd_entry)
+            if len(ups) == 1:
+                if strip_site(f1) != strip_site(ups[0].res):
+                    badp.append("the new expiry reported is not the result of the entry update: %s" % fmt(f1)[:60])
+            elif len(ups) == 0:
+                if existing is None or not same_value(f1, existing):
+                    badp.append("a path that updates nothing reports a new expiry (%s) different from the entry's own" % fmt(f1)[:60])
+            else:
+                badp.append("%d entry updates on one path" % len(ups))
+        ctx.check(not badp and n_upd >= 1, "R08.9", "%s|response-reports-resulting-expiry" % g.name,
+                  "whenever the in-place update reports an updated entry, the new expiry it reports is the entry's expiry after the update (%d updated paths)" % n_upd,
+                  g.where(), "; ".join(sorted(set(badp))[:3]))
         for b, t in calls:
             args = [g.op_origin(a) for a in t["args"]]
             params_ok = sorted(a[1] for a in args[1:] if a[0] == "param") == [3, 4, 5]
